@@ -5,6 +5,7 @@ import z3
 from pyvc import sym, instrument, vc as vcm
 from pyvc.arr import SymArray, check_same
 from pyvc.harness import Unit
+from pyvc import harness as _h
 from pyvc.sym import SB, SC, SI, SR, check, assume, explore, FreshInt
 from checks import update_common as uc, init_common as ic
 
@@ -269,6 +270,12 @@ def _upd(screening, dynamic):
     return lambda m=None: uc.run_update(m, screening, dynamic, prefixes=("C01.",))
 
 
+
+def _bounded_quick():
+    from checks import physics_native as pn
+    return pn.conservation_cases(0, reduced=True)
+
+
 def units():
     U = "tdgl.solver.solver:TDGLSolver."
     return [Unit("solve_for_observables", U + "solve_for_observables", run_conserve, props=["C01"], timeout=300),
@@ -279,7 +286,8 @@ def units():
             Unit("update[no screening, static A]", U + "update", _upd(False, False), props=["C01"], timeout=900),
             Unit("update[no screening, dynamic A]", U + "update", _upd(False, True), props=["C01"], timeout=900),
             Unit("update[screening, static A]", U + "update", _upd(True, False), props=["C01"], timeout=900),
-            Unit("check_total_current[float64 acceptance, bounded]", "tdgl.solver.solver:validate_terminal_currents", run_accept_fp, props=["C01"], timeout=600, kind="bounded")]
+            Unit("check_total_current[float64 acceptance, bounded]", "tdgl.solver.solver:validate_terminal_currents", run_accept_fp, props=["C01"], timeout=600, kind="bounded"),
+            _h.bounded_unit("conservation and injected current of real runs [bounded]", "tdgl.solve (real runs)", "C01", _bounded_quick, "per_cell_conservation_and_requested_terminal_currents[3 runs]", timeout=900)]
 
 
 def _terminal_info(m=None):
